@@ -174,7 +174,15 @@ HandleElementResult SaslManager::handleElement(const QDomElement &el)
         return Rejected;
     }
 
-    if (Success::fromDom(el)) {
+    if (auto success = Success::fromDom(el)) {
+        // the last server message of the mechanism may come with the success (RFC 6120, 6.4.6)
+        if ((!success->value.isEmpty() && !m_saslClient->respond(success->value)) || !m_saslClient->isServerVerified()) {
+            finish(AuthError {
+                u"Server sent success without completing the authentication exchange"_s,
+                AuthenticationError { AuthenticationError::ProcessingError, {}, {} },
+            });
+            return Finished;
+        }
         finish(QXmpp::Success());
         return Finished;
     } else if (auto challenge = Challenge::fromDom(el)) {
@@ -275,6 +283,15 @@ HandleElementResult Sasl2Manager::handleElement(const QDomElement &el)
             return Finished;
         }
     } else if (auto success = Success::fromDom(el)) {
+        // the last server message of the mechanism may come with the success
+        if ((success->additionalData && !success->additionalData->isEmpty() && !m_state->sasl->respond(*success->additionalData)) ||
+            !m_state->sasl->isServerVerified()) {
+            finish(AuthError {
+                u"Server sent success without completing the authentication exchange"_s,
+                AuthenticationError { AuthenticationError::ProcessingError, {}, {} },
+            });
+            return Finished;
+        }
         finish(std::move(*success));
         return Finished;
     } else if (auto failure = Failure::fromDom(el)) {
